@@ -1,3 +1,908 @@
 import MypyVerif.Model.Reach
+/-! Helper lemmas for the reachability model (property theorems are in Props/C12Reach.lean). -/
 namespace Reach
+
+/-! ### orderings and operators -/
+
+theorem opHolds_reverse (op : Op) (o : Ordering) : opHolds (reverseOp op) o.swap = opHolds op o := by
+  cases op <;> cases o <;> rfl
+
+theorem reverseOp_reverseOp (op : Op) : reverseOp (reverseOp op) = op := by cases op <;> rfl
+
+theorem cmpInt_swap (a b : Int) : cmpInt b a = (cmpInt a b).swap := by
+  unfold cmpInt
+  by_cases h1 : a < b
+  · have : ¬ b < a := by omega
+    have : ¬ b = a := by omega
+    simp [*]
+  · by_cases h2 : a = b
+    · subst h2; simp
+    · have : b < a := by omega
+      simp [*]
+
+theorem cmpInt_eq_iff (a b : Int) : cmpInt a b = .eq ↔ a = b := by
+  unfold cmpInt
+  by_cases h1 : a < b
+  · simp [h1]; omega
+  · by_cases h2 : a = b <;> simp [h1, h2]
+
+/-- `o`, unless it is `eq`: then `t` -/
+def ordThen (o t : Ordering) : Ordering := if o = .eq then t else o
+
+theorem lexOrd_eq_iff : ∀ (xs ys : List Int), lexOrd xs ys = .eq ↔ xs = ys
+  | [], [] => by simp [lexOrd]
+  | [], _ :: _ => by simp [lexOrd]
+  | _ :: _, [] => by simp [lexOrd]
+  | x :: xs, y :: ys => by
+    simp only [lexOrd]
+    by_cases h : x = y
+    · simp [h, lexOrd_eq_iff xs ys]
+    · simp [h, cmpInt_eq_iff]
+
+/-! ### run-time comparison of a tuple that starts with ints against a tuple of ints -/
+
+def ints (l : List Int) : List Elem := l.map .int
+
+theorem cmpElems_prefix (op : Op) (extra : List Elem) : ∀ (xs ys : List Int), ys.length ≤ xs.length →
+    cmpElems op (ints xs ++ extra) (ints ys) =
+      some (opHolds op (ordThen (lexOrd xs ys) (if extra = [] then .eq else .gt))) := by
+  intro xs
+  induction xs with
+  | nil =>
+    intro ys hl
+    cases ys with
+    | nil =>
+      cases extra with
+      | nil => simp [ints, cmpElems, lexOrd, ordThen]
+      | cons e es => simp [ints, cmpElems, lexOrd, ordThen]
+    | cons y ys => simp at hl
+  | cons x xs ih =>
+    intro ys hl
+    cases ys with
+    | nil => simp [ints, cmpElems, lexOrd, ordThen]
+    | cons y ys =>
+      have hl' : ys.length ≤ xs.length := by simpa using hl
+      simp only [ints, List.map_cons, List.cons_append, cmpElems, lexOrd]
+      by_cases h : x = y
+      · subst h
+        simp only [if_true]
+        exact ih ys hl'
+      · have hne : ¬ (Elem.int x = Elem.int y) := by intro he; injection he; contradiction
+        have hc : cmpInt x y ≠ .eq := fun hc => h ((cmpInt_eq_iff x y).mp hc)
+        simp [h, hne, elemCmp, ordThen, hc]
+
+theorem cmpElems_prefix_swapped (op : Op) (extra : List Elem) : ∀ (xs ys : List Int), ys.length ≤ xs.length →
+    cmpElems op (ints ys) (ints xs ++ extra) =
+      some (opHolds (reverseOp op) (ordThen (lexOrd xs ys) (if extra = [] then .eq else .gt))) := by
+  intro xs
+  induction xs with
+  | nil =>
+    intro ys hl
+    cases ys with
+    | nil =>
+      cases extra with
+      | nil => cases op <;> simp [ints, cmpElems, lexOrd, ordThen, opHolds, reverseOp] <;> decide
+      | cons e es => cases op <;> simp [ints, cmpElems, lexOrd, ordThen, opHolds, reverseOp] <;> decide
+    | cons y ys => simp at hl
+  | cons x xs ih =>
+    intro ys hl
+    cases ys with
+    | nil => cases op <;> simp [ints, cmpElems, lexOrd, ordThen, opHolds, reverseOp] <;> decide
+    | cons y ys =>
+      have hl' : ys.length ≤ xs.length := by simpa using hl
+      simp only [ints, List.map_cons, List.cons_append, cmpElems, lexOrd]
+      by_cases h : x = y
+      · subst h
+        simp only [if_true]
+        exact ih ys hl'
+      · have hne : ¬ (Elem.int y = Elem.int x) := by intro he; injection he with he; exact h he.symm
+        have hc : cmpInt x y ≠ .eq := fun hc => h ((cmpInt_eq_iff x y).mp hc)
+        simp only [h, hne, if_false, elemCmp, ordThen, hc]
+        rw [cmpInt_swap x y, ← opHolds_reverse op, Ordering.swap_swap]
+
+theorem ordThen_eq (o : Ordering) : ordThen o .eq = o := by cases o <;> rfl
+
+theorem ofBool_beq (b : Bool) : (ofBool b == TV.alwaysTrue) = b := by cases b <;> rfl
+
+theorem ofBool_ne_unknown (b : Bool) : ofBool b ≠ TV.unknown := by cases b <;> simp [ofBool]
+
+/-! ### what the operands picked by consider_sys_version_info are at run time -/
+
+/-- the 5-tuple `sys.version_info` of a run on the target version -/
+def versionTuple (major minor micro : Nat) (level : String) (serial : Nat) : List Elem :=
+  [.int major, .int minor, .int micro, .str level, .int serial]
+
+theorem cvi_index {v : Operand} {i : Nat} (h : containsSysVersionInfo v = some (.index i)) :
+    v = .index (.int i) := by
+  cases v with
+  | index l => cases l <;> simp [containsSysVersionInfo, litNat?] at h; subst h; rfl
+  | slice lo hi st =>
+    simp only [containsSysVersionInfo] at h
+    split at h
+    · cases h
+    · cases lo <;> cases hi <;> simp at h
+      all_goals (try (rename_i a b; cases hla : litNat? a <;> cases hlb : litNat? b <;> simp [hla, hlb] at h))
+  | _ => simp [containsSysVersionInfo] at h
+
+theorem take_length' {α : Type} (l : List α) : (l.drop 0).take (l.length - 0) = l := by simp
+
+theorem cvi_slice {v : Operand} {lo hi : Option Nat} (h : containsSysVersionInfo v = some (.slice lo hi))
+    (env : Env) :
+    evalOperand env v = (pySlice env.versionInfo (lo.map Int.ofNat) (hi.map Int.ofNat) none).map .tup := by
+  cases v with
+  | versionInfo =>
+    simp [containsSysVersionInfo] at h
+    obtain ⟨rfl, rfl⟩ := h
+    simp [evalOperand, pySlice]
+  | index l => cases l <;> simp [containsSysVersionInfo, litNat?] at h
+  | slice lo' hi' st =>
+    simp only [containsSysVersionInfo] at h
+    split at h
+    · cases h
+    · next hst =>
+      have hst' : st = none ∨ st = some 1 := by
+        cases st with
+        | none => exact Or.inl rfl
+        | some k => by_cases hk : k = 1
+                    · exact Or.inr (by rw [hk])
+                    · exact absurd ⟨by simp, by simp [hk]⟩ hst
+      have hstride : ∀ l h', pySlice env.versionInfo l h' st = pySlice env.versionInfo l h' none := by
+        intro l h'; rcases hst' with rfl | rfl <;> rfl
+      simp only [evalOperand, hstride]
+      cases lo' with
+      | none =>
+        cases hi' with
+        | none => simp at h; obtain ⟨rfl, rfl⟩ := h; rfl
+        | some b =>
+          cases b with
+          | int n => simp [litNat?] at h; obtain ⟨rfl, rfl⟩ := h; rfl
+          | neg n => simp [litNat?] at h
+      | some a =>
+        cases a with
+        | neg n => cases hi' <;> simp [litNat?] at h
+        | int n =>
+          cases hi' with
+          | none => simp [litNat?] at h; obtain ⟨rfl, rfl⟩ := h; rfl
+          | some b =>
+            cases b with
+            | int k => simp [litNat?] at h; obtain ⟨rfl, rfl⟩ := h; rfl
+            | neg k => simp [litNat?] at h
+  | _ => simp [containsSysVersionInfo] at h
+
+theorem ciot_int {t : Operand} {k : Nat} (h : containsIntOrTupleOfInts t = some (.int k)) :
+    t = .lit (.int k) := by
+  cases t with
+  | lit l => cases l <;> simp [containsIntOrTupleOfInts, litNat?] at h; subst h; rfl
+  | tuple items => simp [containsIntOrTupleOfInts] at h
+  | _ => simp [containsIntOrTupleOfInts] at h
+
+theorem allNat_spec : ∀ (items : List Lit) (xs : List Nat), allNat? items = some xs →
+    items.map (fun l => Elem.int l.val) = ints (natsToInts xs) := by
+  intro items
+  induction items with
+  | nil => intro xs h; simp [allNat?] at h; subst h; rfl
+  | cons l ls ih =>
+    intro xs h
+    simp only [allNat?] at h
+    cases l with
+    | neg n => simp [litNat?] at h
+    | int n =>
+      cases hr : allNat? ls with
+      | none => simp [litNat?, hr] at h
+      | some ns =>
+        simp [litNat?, hr] at h
+        subst h
+        simp [ints, natsToInts, Lit.val] at ih ⊢
+        exact ih ns hr
+
+theorem ciot_tuple {t : Operand} {xs : List Nat} (h : containsIntOrTupleOfInts t = some (.tuple xs))
+    (env : Env) : evalOperand env t = some (.tup (ints (natsToInts xs))) := by
+  cases t with
+  | lit l => cases l <;> simp [containsIntOrTupleOfInts, litNat?] at h
+  | tuple items =>
+    simp [containsIntOrTupleOfInts] at h
+    simp [evalOperand, allNat_spec items xs h]
+  | _ => simp [containsIntOrTupleOfInts] at h
+
+/-- `sys.version_info[lo:hi]` at run time, for the bounds mypy accepts: the slice of (major, minor) mypy
+    uses, followed by `extra`; `extra` is empty exactly when the upper bound is written. -/
+theorem slice_rt (M m mc se : Nat) (lv : String) (lo hi : Option Nat)
+    (h : lo.getD 0 < hi.getD 2 ∧ hi.getD 2 ≤ 2) :
+    ∃ extra, pySlice (versionTuple M m mc lv se) (lo.map Int.ofNat) (hi.map Int.ofNat) none =
+        some (ints (((natsToInts [M, m]).drop (lo.getD 0)).take (hi.getD 2 - lo.getD 0)) ++ extra) ∧
+      (extra = [] ↔ hi ≠ none) := by
+  cases lo with
+  | none =>
+    cases hi with
+    | none => exact ⟨[.int mc, .str lv, .int se], by simp [pySlice, versionTuple, ints, natsToInts], by simp⟩
+    | some b =>
+      simp at h
+      have hb : b = 1 ∨ b = 2 := by omega
+      rcases hb with rfl | rfl
+      · exact ⟨[], by simp [pySlice, versionTuple, ints, natsToInts, adjust], by simp⟩
+      · exact ⟨[], by simp [pySlice, versionTuple, ints, natsToInts, adjust], by simp⟩
+  | some a =>
+    cases hi with
+    | none =>
+      simp at h
+      have ha : a = 0 ∨ a = 1 := by omega
+      rcases ha with rfl | rfl
+      · exact ⟨[.int mc, .str lv, .int se], by simp [pySlice, versionTuple, ints, natsToInts, adjust], by simp⟩
+      · exact ⟨[.int mc, .str lv, .int se], by simp [pySlice, versionTuple, ints, natsToInts, adjust], by simp⟩
+    | some b =>
+      simp at h
+      have hab : (a = 0 ∧ b = 1) ∨ (a = 0 ∧ b = 2) ∨ (a = 1 ∧ b = 2) := by omega
+      rcases hab with ⟨rfl, rfl⟩ | ⟨rfl, rfl⟩ | ⟨rfl, rfl⟩
+      · exact ⟨[], by simp [pySlice, versionTuple, ints, natsToInts, adjust], by simp⟩
+      · exact ⟨[], by simp [pySlice, versionTuple, ints, natsToInts, adjust], by simp⟩
+      · exact ⟨[], by simp [pySlice, versionTuple, ints, natsToInts, adjust], by simp⟩
+
+/-- the F4 shape, on the operands consider_sys_version_info settled on: an open-ended slice compared with
+    exactly the tuple mypy cuts out of (major, minor), under an operator that tells "equal" from "longer" -/
+def f4Core (i : VIdx) (th : Thing) (op : Op) (major minor : Nat) : Bool :=
+  match i, th with
+  | .slice lo none, .tuple t =>
+    decide (natsToInts t = (natsToInts [major, minor]).drop (lo.getD 0)) &&
+      (op == .eq || op == .ne || op == .le || op == .gt)
+  | _, _ => false
+
+theorem natsToInts_length (l : List Nat) : (natsToInts l).length = l.length := by simp [natsToInts]
+
+/-- The heart of `version_test_exact_partial`: outside the F4 shape, whatever consider_sys_version_info
+    decides for (version operand, literal operand, operator) is the value of the comparison at run time —
+    written either way round. -/
+theorem version_core (env : Env) (M m mc se : Nat) (lv : String)
+    (henv : env.versionInfo = versionTuple M m mc lv se)
+    (v t : Operand) (i : VIdx) (th : Thing) (op : Op)
+    (hv : containsSysVersionInfo v = some i) (ht : containsIntOrTupleOfInts t = some th)
+    (tv : TV) (hd : decideVersion (some i) (some th) op M m = tv) (hne : tv ≠ .unknown)
+    (hf4 : f4Core i th op M m = false) :
+    ∃ a b, evalOperand env v = some a ∧ evalOperand env t = some b ∧
+      cmpVal op a b = some (tv == .alwaysTrue) ∧ cmpVal (reverseOp op) b a = some (tv == .alwaysTrue) := by
+  cases i with
+  | index k =>
+    cases th with
+    | tuple ts => simp [decideVersion] at hd; exact absurd hd.symm hne
+    | int n =>
+      have hv' := cvi_index hv
+      have ht' := ciot_int ht
+      subst hv' ht'
+      simp only [decideVersion] at hd
+      by_cases h0 : k = 0
+      · subst h0
+        simp only [if_true] at hd
+        refine ⟨.int M, .int n, by simp [evalOperand, pyIndex, henv, versionTuple, Lit.val, Elem.toVal], by simp [evalOperand, Lit.val], ?_, ?_⟩
+        · simp only [cmpVal, ← hd, fixedCmpInt, ofBool_beq]
+        · simp only [cmpVal, ← hd, fixedCmpInt, ofBool_beq, cmpInt_swap (M : Int) (n : Int), opHolds_reverse]
+      · by_cases h1 : k = 1
+        · subst h1
+          simp only [h0, if_false, if_true] at hd
+          refine ⟨.int m, .int n, by simp [evalOperand, pyIndex, henv, versionTuple, Lit.val, Elem.toVal], by simp [evalOperand, Lit.val], ?_, ?_⟩
+          · simp only [cmpVal, ← hd, fixedCmpInt, ofBool_beq]
+          · simp only [cmpVal, ← hd, fixedCmpInt, ofBool_beq, cmpInt_swap (m : Int) (n : Int), opHolds_reverse]
+        · simp [h0, h1] at hd; exact absurd hd.symm hne
+  | slice lo hi =>
+    cases th with
+    | int n => simp [decideVersion] at hd; exact absurd hd.symm hne
+    | tuple ts =>
+      simp only [decideVersion] at hd
+      split at hd
+      · next hb =>
+        split at hd
+        · next hlen =>
+          obtain ⟨extra, hsl, hex⟩ := slice_rt M m mc se lv lo hi hb
+          have hvv := cvi_slice hv env
+          rw [henv, hsl] at hvv
+          have htt := ciot_tuple ht env
+          generalize hval : ((natsToInts [M, m]).drop (lo.getD 0)).take (hi.getD 2 - lo.getD 0) = val at *
+          have hle : (natsToInts ts).length ≤ val.length := by
+            rw [natsToInts_length]; rcases hlen with h | h <;> omega
+          refine ⟨_, _, hvv, htt, ?_, ?_⟩
+          all_goals
+            simp only [cmpVal]
+            first
+              | rw [cmpElems_prefix op extra val _ hle]
+              | rw [cmpElems_prefix_swapped (reverseOp op) extra val _ hle, reverseOp_reverseOp]
+            rw [← hd, fixedCmpTuple, ofBool_beq]
+            congr 1
+            by_cases hx : extra = []
+            · simp [hx, ordThen_eq]
+            · simp only [hx, if_false]
+              by_cases ho : lexOrd val (natsToInts ts) = .eq
+              · -- equal tuples and an open-ended slice: only `<` and `>=` survive, by `hf4`
+                have hhi : hi = none := by
+                  cases hi with
+                  | none => rfl
+                  | some b => exact absurd (hex.mpr (by simp)) hx
+                subst hhi
+                have heq := (lexOrd_eq_iff _ _).mp ho
+                have hval' : (natsToInts [M, m]).drop (lo.getD 0) = val := by
+                  rw [← hval]
+                  apply (List.take_of_length_le _).symm
+                  simp [natsToInts] <;> omega
+                simp only [f4Core, hval', ← heq, decide_true, Bool.true_and] at hf4
+                rw [ho]
+                cases op <;> simp [ordThen, opHolds] at hf4 ⊢ <;> decide
+              · simp [ordThen, ho]
+        · exact absurd hd.symm hne
+      · exact absurd hd.symm hne
+
+theorem decideVersion_none_left (th : Option Thing) (op : Op) (M m : Nat) :
+    decideVersion none th op M m = .unknown := by simp [decideVersion]
+
+theorem decideVersion_none_right (i : Option VIdx) (op : Op) (M m : Nat) :
+    decideVersion i none op M m = .unknown := by
+  cases i with
+  | none => simp [decideVersion]
+  | some i => cases i <;> simp [decideVersion]
+
+/-- the F4 shape of a comparison as written (`pickOperands` decides which side is the version) -/
+def f4Shape (l : Operand) (op : Op) (r : Operand) (major minor : Nat) : Bool :=
+  let p := pickOperands l op r
+  match p.1, p.2.1 with
+  | some i, some th => f4Core i th p.2.2 major minor
+  | _, _ => false
+
+theorem version_cmp_exact (env : Env) (M m mc se : Nat) (lv : String)
+    (henv : env.versionInfo = versionTuple M m mc lv se) (l : Operand) (op : Op) (r : Operand) (tv : TV)
+    (hd : considerSysVersionInfo l op r M m = tv) (hne : tv ≠ .unknown)
+    (hf4 : f4Shape l op r M m = false) :
+    eval env (.cmp l op r) = some (tv == .alwaysTrue) := by
+  unfold considerSysVersionInfo at hd
+  unfold f4Shape at hf4
+  simp only at hd hf4
+  unfold pickOperands at hd hf4
+  cases hcl : containsSysVersionInfo l with
+  | some i =>
+    cases hcr : containsIntOrTupleOfInts r with
+    | some th =>
+      simp only [hcl, hcr] at hd hf4
+      obtain ⟨a, b, ha, hb, hc, _⟩ := version_core env M m mc se lv henv l r i th op hcl hcr tv hd hne hf4
+      simp [eval, ha, hb, hc]
+    | none =>
+      simp only [hcl, hcr] at hd hf4
+      cases hi : containsSysVersionInfo r with
+      | none => rw [hi, decideVersion_none_left] at hd; exact absurd hd.symm hne
+      | some i' =>
+        cases ht : containsIntOrTupleOfInts l with
+        | none => rw [ht, decideVersion_none_right] at hd; exact absurd hd.symm hne
+        | some th' =>
+          simp only [hi, ht] at hd hf4
+          obtain ⟨a, b, ha, hb, _, hc⟩ :=
+            version_core env M m mc se lv henv r l i' th' (reverseOp op) hi ht tv hd hne hf4
+          rw [reverseOp_reverseOp] at hc
+          simp [eval, ha, hb, hc]
+  | none =>
+    simp only [hcl] at hd hf4
+    cases hi : containsSysVersionInfo r with
+    | none => rw [hi, decideVersion_none_left] at hd; exact absurd hd.symm hne
+    | some i' =>
+      cases ht : containsIntOrTupleOfInts l with
+      | none => rw [ht, decideVersion_none_right] at hd; exact absurd hd.symm hne
+      | some th' =>
+        simp only [hi, ht] at hd hf4
+        obtain ⟨a, b, ha, hb, _, hc⟩ :=
+          version_core env M m mc se lv henv r l i' th' (reverseOp op) hi ht tv hd hne hf4
+        rw [reverseOp_reverseOp] at hc
+        simp [eval, ha, hb, hc]
+
+/-! ### platform tests -/
+
+def isCallKw : Cond → Bool
+  | .callKw _ _ _ => true
+  | _ => false
+
+theorem platform_exact (env : Env) (plat : String) (hp : env.platform = plat) (c : Cond) (tv : TV)
+    (hd : considerSysPlatform c plat = tv) (hne : tv ≠ .unknown) :
+    (isCallKw c = false → eval env c = some (tv == .alwaysTrue)) ∧
+    (∀ b, eval env c = some b → b = (tv == .alwaysTrue)) := by
+  have key : isCallKw c = false → eval env c = some (tv == .alwaysTrue) := by
+    intro hk
+    unfold considerSysPlatform at hd
+    split at hd
+    · next op s =>
+      split at hd
+      · simp [eval, evalOperand, cmpVal, hp, ← hd, fixedCmpStr, ofBool_beq]
+      · exact absurd hd.symm hne
+    · next meth s =>
+      split at hd
+      · next hm => simp [eval, evalOperand, hp, hm, ← hd, ofBool_beq]
+      · exact absurd hd.symm hne
+    · simp [isCallKw] at hk
+    · exact absurd hd.symm hne
+  refine ⟨key, ?_⟩
+  intro b hb
+  cases hk : isCallKw c with
+  | false => rw [key hk] at hb; injection hb with hb; exact hb.symm
+  | true =>
+    cases c <;> simp [isCallKw] at hk
+    simp [eval] at hb
+
+/-! ### the not / and / or tables -/
+
+/-- what a (decided) truth value claims about mypy's own evaluation … -/
+def TV.mt : TV → Bool
+  | .alwaysTrue => true | .mypyTrue => true | _ => false
+/-- … and about the run-time value -/
+def TV.rt : TV → Bool
+  | .alwaysTrue => true | .mypyFalse => true | _ => false
+
+/-- entries of the `or` table whose run-time component is wrong -/
+def badOr (l r : TV) : Bool :=
+  (l == .unknown && r == .mypyTrue) || (l == .mypyTrue && r == .unknown) ||
+  (l == .mypyFalse && r == .mypyTrue) || (l == .mypyTrue && r == .mypyFalse) ||
+  (l == .mypyFalse && r == .alwaysFalse) || (l == .alwaysFalse && r == .mypyFalse)
+
+/-- entries of the `and` table whose run-time component is wrong -/
+def badAnd (l r : TV) : Bool :=
+  (l == .unknown && r == .mypyFalse) || (l == .mypyFalse && r == .unknown) ||
+  (l == .mypyTrue && r == .mypyFalse) || (l == .mypyFalse && r == .mypyTrue)
+
+theorem invert_unknown {t : TV} (h : invert t ≠ .unknown) : t ≠ .unknown := by
+  intro ht; subst ht; exact h rfl
+
+theorem invert_mt (t : TV) (h : t ≠ .unknown) : (invert t).mt = !t.mt := by cases t <;> simp_all [invert, TV.mt]
+theorem invert_rt (t : TV) (h : t ≠ .unknown) : (invert t).rt = !t.rt := by cases t <;> simp_all [invert, TV.rt]
+
+/-- `a or b` with short circuit: `va` the value of `a`, `vb` the outcome of evaluating `b` -/
+def orVal (va : Bool) (vb : Option Bool) : Option Bool := if va then some true else vb
+def andVal (va : Bool) (vb : Option Bool) : Option Bool := if va then vb else some false
+
+/-- what is known about the second operand: it may not have been evaluated, or may raise -/
+def Claim (f : TV → Bool) (t : TV) (vb : Option Bool) : Prop :=
+  match vb with
+  | some x => t ≠ .unknown → x = f t
+  | none => True
+
+instance (f : TV → Bool) (t : TV) (vb : Option Bool) : Decidable (Claim f t vb) := by
+  unfold Claim; cases vb <;> infer_instance
+
+theorem orTable_mt (ta tb : TV) (va : Bool) (vb : Option Bool) (v : Bool)
+    (ha : ta ≠ .unknown → va = ta.mt) (hb : Claim TV.mt tb vb)
+    (hv : orVal va vb = some v) (hne : orTable ta tb ≠ .unknown) : v = (orTable ta tb).mt := by
+  revert ha hb hv hne
+  cases ta <;> cases tb <;> cases va <;> cases v <;> rcases vb with _ | _ | _ <;> decide
+
+theorem andTable_mt (ta tb : TV) (va : Bool) (vb : Option Bool) (v : Bool)
+    (ha : ta ≠ .unknown → va = ta.mt) (hb : Claim TV.mt tb vb)
+    (hv : andVal va vb = some v) (hne : andTable ta tb ≠ .unknown) : v = (andTable ta tb).mt := by
+  revert ha hb hv hne
+  cases ta <;> cases tb <;> cases va <;> cases v <;> rcases vb with _ | _ | _ <;> decide
+
+theorem orTable_rt (ta tb : TV) (va : Bool) (vb : Option Bool) (v : Bool)
+    (ha : ta ≠ .unknown → va = ta.rt) (hb : Claim TV.rt tb vb)
+    (hv : orVal va vb = some v) (hne : orTable ta tb ≠ .unknown) (hbad : badOr ta tb = false) :
+    v = (orTable ta tb).rt := by
+  revert ha hb hv hne hbad
+  cases ta <;> cases tb <;> cases va <;> cases v <;> rcases vb with _ | _ | _ <;> decide
+
+theorem andTable_rt (ta tb : TV) (va : Bool) (vb : Option Bool) (v : Bool)
+    (ha : ta ≠ .unknown → va = ta.rt) (hb : Claim TV.rt tb vb)
+    (hv : andVal va vb = some v) (hne : andTable ta tb ≠ .unknown) (hbad : badAnd ta tb = false) :
+    v = (andTable ta tb).rt := by
+  revert ha hb hv hne hbad
+  cases ta <;> cases tb <;> cases va <;> cases v <;> rcases vb with _ | _ | _ <;> decide
+
+/-- the `bad` sets are exact: every listed entry is wrong for some evaluation consistent with the
+    operands' own claims -/
+theorem badOr_exact (ta tb : TV) (h : badOr ta tb = true) :
+    ∃ va vb v, (ta ≠ .unknown → va = ta.rt) ∧ Claim TV.rt tb vb ∧ orVal va vb = some v ∧
+      orTable ta tb ≠ .unknown ∧ v ≠ (orTable ta tb).rt := by
+  refine ⟨decide (ta = .unknown ∨ ta = .mypyFalse),
+    if ta = .unknown ∨ ta = .mypyFalse then none else some true, true, ?_⟩
+  revert h
+  cases ta <;> cases tb <;> decide
+
+theorem badAnd_exact (ta tb : TV) (h : badAnd ta tb = true) :
+    ∃ va vb v, (ta ≠ .unknown → va = ta.rt) ∧ Claim TV.rt tb vb ∧ andVal va vb = some v ∧
+      andTable ta tb ≠ .unknown ∧ v ≠ (andTable ta tb).rt := by
+  refine ⟨decide (ta = .mypyFalse), if ta = .mypyFalse then some false else none, false, ?_⟩
+  revert h
+  cases ta <;> cases tb <;> decide
+
+/-! ### infer_condition_value as a whole -/
+
+/-- a run on the configured target -/
+def EnvFor (o : Options) (env : Env) : Prop :=
+  (∃ mc lv se, env.versionInfo = versionTuple o.major o.minor mc lv se) ∧ env.platform = o.platform
+
+/-- the special names have their conventional run-time values, and the user's `--always-true` /
+    `--always-false` promises hold -/
+def NamesOK (o : Options) (env : Env) : Prop :=
+  ∀ n b, env.names n = some b → nameValue n o ≠ .unknown → b = (nameValue n o).rt
+
+/-- no comparison in the condition has the F4 shape -/
+def noF4 (o : Options) : Cond → Bool
+  | .cmp l op r => !f4Shape l op r o.major o.minor
+  | .not c => noF4 o c
+  | .and a b => noF4 o a && noF4 o b
+  | .or a b => noF4 o a && noF4 o b
+  | _ => true
+
+/-- no `and` / `or` node of the condition hits an entry of `badAnd` / `badOr` -/
+def noBadPair (o : Options) : Cond → Bool
+  | .not c => noBadPair o c
+  | .and a b => noBadPair o a && noBadPair o b && !badAnd (infer o a) (infer o b)
+  | .or a b => noBadPair o a && noBadPair o b && !badOr (infer o a) (infer o b)
+  | _ => true
+
+theorem leaf_sound (o : Options) (env : Env) (henv : EnvFor o env) (c : Cond) (tv : TV)
+    (hleaf : (∃ l op r, c = .cmp l op r) ∨ (∃ r m a, c = .call r m a) ∨ (∃ r m a, c = .callKw r m a))
+    (hd : leafValue c o = tv) (hne : tv ≠ .unknown) (hf4 : noF4 o c = true) :
+    (tv = .alwaysTrue ∨ tv = .alwaysFalse) ∧ ∀ b, eval env c = some b → b = (tv == .alwaysTrue) := by
+  obtain ⟨⟨mc, lv, se, hvi⟩, hplat⟩ := henv
+  have hplatform : ∀ tv, considerSysPlatform c o.platform = tv → tv ≠ .unknown →
+      (tv = .alwaysTrue ∨ tv = .alwaysFalse) ∧ ∀ b, eval env c = some b → b = (tv == .alwaysTrue) := by
+    intro tv hd hne
+    refine ⟨?_, (platform_exact env o.platform hplat c tv hd hne).2⟩
+    unfold considerSysPlatform at hd
+    split at hd
+    · split at hd
+      · rw [← hd, fixedCmpStr]; cases opHolds _ _ <;> simp [ofBool]
+      · exact absurd hd.symm hne
+    · split at hd
+      · rw [← hd]; cases pyStartsWith _ _ <;> simp [ofBool]
+      · exact absurd hd.symm hne
+    · split at hd
+      · rw [← hd]; cases pyStartsWith _ _ <;> simp [ofBool]
+      · exact absurd hd.symm hne
+    · exact absurd hd.symm hne
+  rcases hleaf with ⟨l, op, r, rfl⟩ | ⟨r, m, a, rfl⟩ | ⟨r, m, a, rfl⟩
+  · simp only [leafValue] at hd
+    split at hd
+    · exact hplatform tv hd hne
+    · next hv =>
+      simp only [noF4, Bool.not_eq_true'] at hf4
+      have hex := version_cmp_exact env o.major o.minor mc se lv hvi l op r tv hd hne hf4
+      refine ⟨?_, fun b hb => by rw [hex] at hb; injection hb with hb; exact hb.symm⟩
+      -- a decided version test is ALWAYS_TRUE or ALWAYS_FALSE
+      unfold considerSysVersionInfo decideVersion at hd
+      simp only at hd
+      split at hd
+      · split at hd
+        · rw [← hd, fixedCmpInt]; cases opHolds _ _ <;> simp [ofBool]
+        · split at hd
+          · rw [← hd, fixedCmpInt]; cases opHolds _ _ <;> simp [ofBool]
+          · exact absurd hd.symm hne
+      · split at hd
+        · split at hd
+          · rw [← hd, fixedCmpTuple]; cases opHolds _ _ <;> simp [ofBool]
+          · exact absurd hd.symm hne
+        · exact absurd hd.symm hne
+      · exact absurd hd.symm hne
+  · simp only [leafValue, if_true] at hd; exact hplatform tv hd hne
+  · simp only [leafValue, if_true] at hd; exact hplatform tv hd hne
+
+theorem eval_mtEnv_leaf (env : Env) (c : Cond)
+    (hleaf : (∃ l op r, c = .cmp l op r) ∨ (∃ r m a, c = .call r m a) ∨ (∃ r m a, c = .callKw r m a)) :
+    eval (mtEnv env) c = eval env c := by
+  rcases hleaf with ⟨l, op, r, rfl⟩ | ⟨r, m, a, rfl⟩ | ⟨r, m, a, rfl⟩ <;> rfl
+
+theorem eval_or (env : Env) (a b : Cond) (v : Bool) (h : eval env (.or a b) = some v) :
+    ∃ va, eval env a = some va ∧ orVal va (eval env b) = some v := by
+  simp only [eval] at h
+  cases ha : eval env a with
+  | none => simp [ha] at h
+  | some va => cases va <;> simp [ha] at h <;> simp [orVal, h]
+
+theorem eval_and (env : Env) (a b : Cond) (v : Bool) (h : eval env (.and a b) = some v) :
+    ∃ va, eval env a = some va ∧ andVal va (eval env b) = some v := by
+  simp only [eval] at h
+  cases ha : eval env a with
+  | none => simp [ha] at h
+  | some va => cases va <;> simp [ha] at h <;> simp [andVal, h]
+
+theorem claim_of (f : TV → Bool) (t : TV) (vb : Option Bool) (h : ∀ x, vb = some x → t ≠ .unknown → x = f t) :
+    Claim f t vb := by
+  cases vb with
+  | none => trivial
+  | some x => exact h x rfl
+
+theorem mt_eq_rt_of_bool {tv : TV} (h : tv = .alwaysTrue ∨ tv = .alwaysFalse) :
+    tv.mt = (tv == .alwaysTrue) ∧ tv.rt = (tv == .alwaysTrue) := by
+  rcases h with rfl | rfl <;> exact ⟨rfl, rfl⟩
+
+/-- **Soundness of infer_condition_value.**  For a condition without an F4-shaped comparison, evaluated on
+    the configured target: whatever is decided is (i) the value of the condition as mypy sees the world
+    (TYPE_CHECKING and MYPY true) and (ii) — if no and/or node hits a `bad` table entry — its run-time value. -/
+theorem infer_sound (o : Options) (env : Env) (henv : EnvFor o env) (hn : NamesOK o env) :
+    ∀ (c : Cond), noF4 o c = true → infer o c ≠ .unknown →
+      (∀ b, eval (mtEnv env) c = some b → b = (infer o c).mt) ∧
+      (noBadPair o c = true → ∀ b, eval env c = some b → b = (infer o c).rt) := by
+  intro c
+  induction c with
+  | cmp l op r =>
+    intro hf hne
+    have hl := leaf_sound o env henv (.cmp l op r) _ (Or.inl ⟨l, op, r, rfl⟩) rfl hne hf
+    have hmr := mt_eq_rt_of_bool hl.1
+    simp only [infer] at hne ⊢
+    rw [eval_mtEnv_leaf env _ (Or.inl ⟨l, op, r, rfl⟩), hmr.1, hmr.2]
+    exact ⟨hl.2, fun _ => hl.2⟩
+  | call r m a =>
+    intro hf hne
+    have hl := leaf_sound o env henv (.call r m a) _ (Or.inr (Or.inl ⟨r, m, a, rfl⟩)) rfl hne hf
+    have hmr := mt_eq_rt_of_bool hl.1
+    simp only [infer] at hne ⊢
+    rw [eval_mtEnv_leaf env _ (Or.inr (Or.inl ⟨r, m, a, rfl⟩)), hmr.1, hmr.2]
+    exact ⟨hl.2, fun _ => hl.2⟩
+  | callKw r m a =>
+    intro hf hne
+    have hl := leaf_sound o env henv (.callKw r m a) _ (Or.inr (Or.inr ⟨r, m, a, rfl⟩)) rfl hne hf
+    have hmr := mt_eq_rt_of_bool hl.1
+    simp only [infer] at hne ⊢
+    rw [eval_mtEnv_leaf env _ (Or.inr (Or.inr ⟨r, m, a, rfl⟩)), hmr.1, hmr.2]
+    exact ⟨hl.2, fun _ => hl.2⟩
+  | name n =>
+    intro _ hne
+    simp only [infer] at hne ⊢
+    refine ⟨?_, fun _ b hb => hn n b hb hne⟩
+    intro b hb
+    simp only [eval, mtEnv] at hb
+    split at hb
+    · next hmy =>
+      injection hb with hb
+      have : nameValue n o = .mypyTrue := by
+        rcases hmy with rfl | rfl <;> simp [nameValue]
+      rw [this, ← hb]; rfl
+    · next hmy =>
+      have hb' := hn n b hb hne
+      rw [hb']
+      unfold nameValue at hne ⊢
+      simp only [hmy, if_false] at hne ⊢
+      split
+      · rfl
+      · split
+        · rfl
+        · split
+          · rfl
+          · split
+            · rfl
+            · rfl
+  | «opaque» k => intro _ hne; exact absurd rfl hne
+  | not c ih =>
+    intro hf hne
+    simp only [infer] at hne ⊢
+    simp only [noF4] at hf
+    have hne' := invert_unknown hne
+    obtain ⟨ihm, ihr⟩ := ih hf hne'
+    refine ⟨?_, ?_⟩
+    · intro b hb
+      simp only [eval] at hb
+      cases hc : eval (mtEnv env) c with
+      | none => simp [hc] at hb
+      | some x => simp [hc] at hb; rw [invert_mt _ hne', ← ihm x hc, hb]; simp
+    · intro hbad b hb
+      simp only [noBadPair] at hbad
+      simp only [eval] at hb
+      cases hc : eval env c with
+      | none => simp [hc] at hb
+      | some x => simp [hc] at hb; rw [invert_rt _ hne', ← ihr hbad x hc, hb]; simp
+  | and a b iha ihb =>
+    intro hf hne
+    simp only [infer] at hne ⊢
+    simp only [noF4, Bool.and_eq_true] at hf
+    refine ⟨?_, ?_⟩
+    · intro v hv
+      obtain ⟨va, hva, hvv⟩ := eval_and _ a b v hv
+      exact andTable_mt _ _ va _ v (fun h => (iha hf.1 h).1 va hva)
+        (claim_of _ _ _ (fun x hx h => (ihb hf.2 h).1 x hx)) hvv hne
+    · intro hbad v hv
+      simp only [noBadPair, Bool.and_eq_true, Bool.not_eq_true'] at hbad
+      obtain ⟨va, hva, hvv⟩ := eval_and _ a b v hv
+      exact andTable_rt _ _ va _ v (fun h => (iha hf.1 h).2 hbad.1.1 va hva)
+        (claim_of _ _ _ (fun x hx h => (ihb hf.2 h).2 hbad.1.2 x hx)) hvv hne hbad.2
+  | or a b iha ihb =>
+    intro hf hne
+    simp only [infer] at hne ⊢
+    simp only [noF4, Bool.and_eq_true] at hf
+    refine ⟨?_, ?_⟩
+    · intro v hv
+      obtain ⟨va, hva, hvv⟩ := eval_or _ a b v hv
+      exact orTable_mt _ _ va _ v (fun h => (iha hf.1 h).1 va hva)
+        (claim_of _ _ _ (fun x hx h => (ihb hf.2 h).1 x hx)) hvv hne
+    · intro hbad v hv
+      simp only [noBadPair, Bool.and_eq_true, Bool.not_eq_true'] at hbad
+      obtain ⟨va, hva, hvv⟩ := eval_or _ a b v hv
+      exact orTable_rt _ _ va _ v (fun h => (iha hf.1 h).2 hbad.1.1 va hva)
+        (claim_of _ _ _ (fun x hx h => (ihb hf.2 h).2 hbad.1.2 x hx)) hvv hne hbad.2
+
+/-! ### conditions that only test the version / platform -/
+
+def noMypyNames : Cond → Bool
+  | .name n => n != "MYPY" && n != "TYPE_CHECKING"
+  | .not c => noMypyNames c
+  | .and a b => noMypyNames a && noMypyNames b
+  | .or a b => noMypyNames a && noMypyNames b
+  | _ => true
+
+def IsBoolish (t : TV) : Prop := t = .alwaysTrue ∨ t = .alwaysFalse ∨ t = .unknown
+
+theorem ofBool_boolish (b : Bool) : IsBoolish (ofBool b) := by cases b <;> simp [IsBoolish, ofBool]
+
+theorem decideVersion_boolish (i : Option VIdx) (th : Option Thing) (op : Op) (M m : Nat) :
+    IsBoolish (decideVersion i th op M m) := by
+  unfold decideVersion
+  split
+  · split
+    · exact ofBool_boolish _
+    · split
+      · exact ofBool_boolish _
+      · exact Or.inr (Or.inr rfl)
+  · simp only
+    split
+    · split
+      · exact ofBool_boolish _
+      · exact Or.inr (Or.inr rfl)
+    · exact Or.inr (Or.inr rfl)
+  · exact Or.inr (Or.inr rfl)
+
+theorem considerSysPlatform_boolish (c : Cond) (p : String) : IsBoolish (considerSysPlatform c p) := by
+  unfold considerSysPlatform
+  split
+  · split
+    · exact ofBool_boolish _
+    · exact Or.inr (Or.inr rfl)
+  · split
+    · exact ofBool_boolish _
+    · exact Or.inr (Or.inr rfl)
+  · split
+    · exact ofBool_boolish _
+    · exact Or.inr (Or.inr rfl)
+  · exact Or.inr (Or.inr rfl)
+
+theorem leafValue_boolish (c : Cond) (o : Options) : IsBoolish (leafValue c o) := by
+  unfold leafValue
+  simp only
+  split
+  · split
+    · exact considerSysPlatform_boolish _ _
+    · unfold considerSysVersionInfo; exact decideVersion_boolish _ _ _ _ _
+  · simp only [if_true]; exact considerSysPlatform_boolish _ _
+
+theorem pure_infer (o : Options) : ∀ c, noMypyNames c = true → IsBoolish (infer o c) := by
+  intro c
+  induction c with
+  | cmp l op r => intro _; exact leafValue_boolish _ _
+  | call r m a => intro _; exact leafValue_boolish _ _
+  | callKw r m a => intro _; exact leafValue_boolish _ _
+  | name n =>
+    intro h
+    simp only [noMypyNames, Bool.and_eq_true, bne_iff_ne, ne_eq] at h
+    simp only [infer, nameValue]
+    split
+    · exact Or.inr (Or.inl rfl)
+    · split
+      · exact Or.inl rfl
+      · split
+        · next hm => rcases hm with hm | hm <;> simp [hm] at h
+        · split
+          · exact Or.inl rfl
+          · split
+            · exact Or.inr (Or.inl rfl)
+            · exact Or.inr (Or.inr rfl)
+  | «opaque» k => intro _; exact Or.inr (Or.inr rfl)
+  | not c ih =>
+    intro h
+    rcases ih h with h' | h' | h' <;> simp [infer, h', invert, IsBoolish]
+  | and a b iha ihb =>
+    intro h
+    simp only [noMypyNames, Bool.and_eq_true] at h
+    rcases iha h.1 with h1 | h1 | h1 <;> rcases ihb h.2 with h2 | h2 | h2 <;>
+      simp [infer, h1, h2, andTable, IsBoolish]
+  | or a b iha ihb =>
+    intro h
+    simp only [noMypyNames, Bool.and_eq_true] at h
+    rcases iha h.1 with h1 | h1 | h1 <;> rcases ihb h.2 with h2 | h2 | h2 <;>
+      simp [infer, h1, h2, orTable, IsBoolish]
+
+theorem noBad_of_pure (o : Options) : ∀ c, noMypyNames c = true → noBadPair o c = true := by
+  intro c
+  induction c with
+  | not c ih => intro h; exact ih h
+  | and a b iha ihb =>
+    intro h
+    simp only [noMypyNames, Bool.and_eq_true] at h
+    simp only [noBadPair, Bool.and_eq_true, iha h.1, ihb h.2, true_and, Bool.not_eq_true']
+    rcases pure_infer o a h.1 with h1 | h1 | h1 <;> rcases pure_infer o b h.2 with h2 | h2 | h2 <;>
+      simp [h1, h2, badAnd]
+  | or a b iha ihb =>
+    intro h
+    simp only [noMypyNames, Bool.and_eq_true] at h
+    simp only [noBadPair, Bool.and_eq_true, iha h.1, ihb h.2, true_and, Bool.not_eq_true']
+    rcases pure_infer o a h.1 with h1 | h1 | h1 <;> rcases pure_infer o b h.2 with h2 | h2 | h2 <;>
+      simp [h1, h2, badOr]
+  | _ => intro _; rfl
+
+/-! ### inside the F4 shape mypy's answer is always the wrong one -/
+
+theorem version_core_f4 (env : Env) (M m mc se : Nat) (lv : String)
+    (henv : env.versionInfo = versionTuple M m mc lv se)
+    (v t : Operand) (i : VIdx) (th : Thing) (op : Op)
+    (hv : containsSysVersionInfo v = some i) (ht : containsIntOrTupleOfInts t = some th)
+    (tv : TV) (hd : decideVersion (some i) (some th) op M m = tv) (hne : tv ≠ .unknown)
+    (hf4 : f4Core i th op M m = true) :
+    ∃ a b, evalOperand env v = some a ∧ evalOperand env t = some b ∧
+      cmpVal op a b = some (!(tv == .alwaysTrue)) ∧ cmpVal (reverseOp op) b a = some (!(tv == .alwaysTrue)) := by
+  cases i with
+  | index k => simp [f4Core] at hf4
+  | slice lo hi =>
+    cases th with
+    | int n => simp [f4Core] at hf4
+    | tuple ts =>
+      cases hi with
+      | some b => simp [f4Core] at hf4
+      | none =>
+        simp only [f4Core, Bool.and_eq_true, decide_eq_true_eq] at hf4
+        obtain ⟨hts, hop⟩ := hf4
+        simp only [decideVersion] at hd
+        split at hd
+        · next hb =>
+          obtain ⟨extra, hsl, hex⟩ := slice_rt M m mc se lv lo none hb
+          have hx : extra ≠ [] := fun h => (hex.mp h) rfl
+          have hvv := cvi_slice hv env
+          rw [henv, hsl] at hvv
+          have htt := ciot_tuple ht env
+          have hval : ((natsToInts [M, m]).drop (lo.getD 0)).take (Option.getD none 2 - lo.getD 0) = natsToInts ts := by
+            rw [hts]
+            apply List.take_of_length_le
+            simp [natsToInts] <;> omega
+          rw [hval] at hvv hd
+          have hlex : lexOrd (natsToInts ts) (natsToInts ts) = .eq := (lexOrd_eq_iff _ _).mpr rfl
+          split at hd
+          · refine ⟨_, _, hvv, htt, ?_, ?_⟩
+            · simp only [cmpVal]
+              rw [cmpElems_prefix op extra _ _ (Nat.le_refl _), ← hd, fixedCmpTuple, ofBool_beq, hlex]
+              simp only [hx, if_false]
+              cases op <;> simp [ordThen, opHolds] at hop ⊢ <;> decide
+            · simp only [cmpVal]
+              rw [cmpElems_prefix_swapped (reverseOp op) extra _ _ (Nat.le_refl _), reverseOp_reverseOp,
+                ← hd, fixedCmpTuple, ofBool_beq, hlex]
+              simp only [hx, if_false]
+              cases op <;> simp [ordThen, opHolds] at hop ⊢ <;> decide
+          · exact absurd hd.symm hne
+        · exact absurd hd.symm hne
+
+theorem version_cmp_f4_wrong (env : Env) (M m mc se : Nat) (lv : String)
+    (henv : env.versionInfo = versionTuple M m mc lv se) (l : Operand) (op : Op) (r : Operand) (tv : TV)
+    (hd : considerSysVersionInfo l op r M m = tv) (hne : tv ≠ .unknown)
+    (hf4 : f4Shape l op r M m = true) :
+    eval env (.cmp l op r) = some (!(tv == .alwaysTrue)) := by
+  unfold considerSysVersionInfo at hd
+  unfold f4Shape at hf4
+  simp only at hd hf4
+  unfold pickOperands at hd hf4
+  cases hcl : containsSysVersionInfo l with
+  | some i =>
+    cases hcr : containsIntOrTupleOfInts r with
+    | some th =>
+      simp only [hcl, hcr] at hd hf4
+      obtain ⟨a, b, ha, hb, hc, _⟩ := version_core_f4 env M m mc se lv henv l r i th op hcl hcr tv hd hne hf4
+      simp [eval, ha, hb, hc]
+    | none =>
+      simp only [hcl, hcr] at hd hf4
+      cases hi : containsSysVersionInfo r with
+      | none => simp [hi] at hf4
+      | some i' =>
+        cases ht : containsIntOrTupleOfInts l with
+        | none => simp [hi, ht] at hf4
+        | some th' =>
+          simp only [hi, ht] at hd hf4
+          obtain ⟨a, b, ha, hb, _, hc⟩ :=
+            version_core_f4 env M m mc se lv henv r l i' th' (reverseOp op) hi ht tv hd hne hf4
+          rw [reverseOp_reverseOp] at hc
+          simp [eval, ha, hb, hc]
+  | none =>
+    simp only [hcl] at hd hf4
+    cases hi : containsSysVersionInfo r with
+    | none => simp [hi] at hf4
+    | some i' =>
+      cases ht : containsIntOrTupleOfInts l with
+      | none => simp [hi, ht] at hf4
+      | some th' =>
+        simp only [hi, ht] at hd hf4
+        obtain ⟨a, b, ha, hb, _, hc⟩ :=
+          version_core_f4 env M m mc se lv henv r l i' th' (reverseOp op) hi ht tv hd hne hf4
+        rw [reverseOp_reverseOp] at hc
+        simp [eval, ha, hb, hc]
+
 end Reach
